@@ -10,7 +10,11 @@ UNORDERED = [("set_hash", ["feldman_hp_h0", "feldman_hp_h3", "feldman_dhp_h3", "
 # every program ends at a quiescent point with: traversal (x events trbeg/tr/trend), size(), check_consistency()
 PROGRAMS = ["ins:2;ins:1,era:2,ins:3|ins:2,era:1,ins:1|era:2,ins:2,era:3;trav,size,check",
             "ins:1,ins:3;era:1,ins:1,findf:3|upd1:3,ext:3,get:1|eraf:1,insf:3,find:1;trav,size,check",
-            "ins:1,ins:2,ins:3,ins:4;era:2,ins:5|ext:4,ins:2|ins:6,era:1;trav,size,check"]
+            "ins:1,ins:2,ins:3,ins:4;era:2,ins:5|ext:4,ins:2|ins:6,era:1;trav,size,check",
+            # an emptied (erased) node directly in front of a live one: re-use of the empty node against inserts / erases of neighbouring keys
+            # (IterableList keeps erased nodes; the scenario of IterList_q2d.cfg, seeded changes C13 and C18b)
+            "ins:4,ins:5,era:4;ins:2|ins:4,ins:3,era:4;trav,size,check",
+            "ins:2,ins:3,ins:6,era:2,era:3;ins:4|ins:5,ins:4,era:5|ins:3,era:3;trav,size,check"]
 SEQ = ["ins:3,ins:1,ins:4,ins:2,era:3,ins:5,era:1,ins:3,upd1:2,ins:6,era:4;find:1;trav,size,check",
        "ins:5,ins:4,ins:3,ins:2,ins:1,era:5,era:4,ins:7,ins:6,ext:1;find:2;trav,size,check"]
 
